@@ -51,12 +51,12 @@ def ob_time_notes(shape, G, nnotes, option, budget_s=120):
         notes, meta = [], []
         for i in range(nnotes):
             k = symx.fresh_int(f"nk{i}", 0, 3 * G)
-            if i:
-                symx.CTL.assume(k >= meta[i - 1][0])
             kinds = KINDS if nnotes == 1 else KINDS[:1] + KINDS[3:4]  # two notes: TAP and one non-tap representative (MINE)
             kind = kinds[symx.choose(f"kind{i}", len(kinds))]
             col = symx.fresh_int(f"col{i}", 0, 15)
             pl = symx.fresh_int(f"pl{i}", 0, 2)
+            if i:   # note data order: by (player, beat) - a later player's notes start again at low beats (routine charts)
+                symx.CTL.assume(z3.Or(pl > meta[i - 1][3], z3.And(pl == meta[i - 1][3], k >= meta[i - 1][0])))
             has_ks = symx.choose(f"hks{i}", 2) if nnotes == 1 else (1 - i % 2)
             ks = symx.fresh_int(f"ks{i}", 0, None) if has_ks else None
             notes.append(Note(beat=Beat(symx.SymInt(k), 48), column=symx.SymInt(col), note_type=NoteType[kind],
@@ -106,7 +106,7 @@ def obligations(tier):
                 obs.append(dict(name=f"time_notes{s}/1note/{o}", func="ob_time_notes", args=(s, G, 1, o), budget_s=b,
                                 bounds=f"shape {s}, 1 note: symbolic tick/column/player/keysound(or none), kind case split over {KINDS}"))
         for o in OPTIONS:
-            obs.append(dict(name=f"time_notes(0, 0, 0, 1)/2notes/{o}", func="ob_time_notes", args=((0, 0, 0, 1), 6, 2, o), budget_s=b, bounds="one warp, 2 notes"))
+            obs.append(dict(name=f"time_notes(0, 0, 0, 1)/2notes/{o}", func="ob_time_notes", args=((0, 0, 0, 1), 6, 2, o), budget_s=b, bounds="one warp, 2 notes in (player, beat) order: the second note may lie earlier than the first when its player is higher"))
         # three warps in every arrangement (nested, overlapping, touching)
         obs.append(dict(name="hittable(0, 0, 0, 3)/G8", func="ob_hittable", args=((0, 0, 0, 3), 8), budget_s=b, bounds="three warps, ticks 0..8"))
         obs.append(dict(name="hittable(0, 1, 0, 3)/G5", func="ob_hittable", args=((0, 1, 0, 3), 5), budget_s=b, bounds="three warps and a stop, ticks 0..5"))
